@@ -180,7 +180,10 @@ def check_case(case):
     else:
         q1 = 1 - b.n_reject / b.n_sample
         var_est = v_est ** 2 * (1 - q1) / (q1 * b.n_sample)
-    z = (v_est - v_ref) / np.sqrt(var_est + var_ref)
+    if var_est + var_ref > 0:
+        z = (v_est - v_ref) / np.sqrt(var_est + var_ref)
+    else:       # nothing was rejected at either side (the region is the whole box and no proposal was lost): equal up to rounding, or wrong
+        z = 0.0 if abs(v_est - v_ref) <= 1e-9 * max(abs(v_ref), 1e-300) else 99.0
     tests.append(('volume-calibration', float(z), {'reported': v_est, 'measured': v_ref, 'relative_difference': v_est / v_ref - 1}))
     return {'case': case, 'tests': tests, 'cls': type(b).__name__, 'n_ref': int(len(R)), 'n_members': len(mem)}
 
